@@ -25,8 +25,9 @@ Definition idls_of (ops : list obs) (n : string) : list idl :=
 Definition new_idl (ops : list obs) (n : string) : idl := merge_idx (idls_of ops n).
 
 (* _compute_scalefactor_missing_rep(obs).get(ens, 1) *)
+(* the replica of ensemble e: name.split('|')[0] == e (a bare name 'e' is a replica of e, as everywhere else in the library) *)
 Definition prefixed (e : string) (names : list string) : list string :=
-  filter (fun n => starts_with (e ++ "|")%string n) names.
+  filter (fun n => String.eqb (ens_of n) e) names.
 Definition new_len (ops : list obs) (n : string) : Z := Z.of_nat (List.length (cfgs (new_idl ops n))).
 Definition zsum (l : list Z) : Z := fold_right Z.add 0%Z l.
 Definition scalefactor (ops : list obs) (o : obs) (e : string) : Q :=
